@@ -159,6 +159,40 @@ theorem incr_writes_only_incr (st : St) (op : String) (a b r : Dense)
     (by simpa using hk) hia hib hir hord hr hna hnb hla hlb hcb hcr hA hB hR
   exact ⟨_, h, rfl, rfl, Writes.sem3 (F := fun acc x y => accAdd acc (vecFn op a.dt x y)) w hR.has hA.has hB.has⟩
 
+/-- **`WithIncr(r)` on the iterator path** (an operand or the increment tensor is a view with gaps / carries a pending
+    transpose, or the data orders differ; no operand lives in `r`'s buffer): at every position `k` of the logical order
+    `r`'s cell becomes `r + (a op b)` of the three tensors' elements at `k` - by coordinate, whatever the layouts; `r` is
+    returned; nothing outside `r`'s buffer changes. -/
+theorem incr_iter_writes_only_incr (st : St) (op : String) (a b r : Dense)
+    (hsh : shapeEq a.shape b.shape = true) (hdt : a.dt = b.dt) (hnum : a.dt ∈ numberTypes)
+    (hk : a.dt ∈ kernelTypes op)
+    (hr : ReuseFits r a.shape a.dt a.ap.o.col)
+    (hu : (a.requiresIterator || b.requiresIterator || r.requiresIterator || !sameOrd a b ||
+      (!sameOrd a r || !sameOrd b r)) = true)
+    (hma : a.mask = none) (hmb : b.mask = none) (hmr : r.mask = none)
+    (hna : a.win.buf ≠ r.win.buf) (hnb : b.win.buf ≠ r.win.buf)
+    (hla : a.win.len ≠ 1) (hlb : b.win.len ≠ 1)
+    (hoa : ∀ i ∈ a.offsets, 0 ≤ i ∧ i < (a.win.len : Int)) (hob : ∀ j ∈ b.offsets, 0 ≤ j ∧ j < (b.win.len : Int))
+    (hor : ∀ m ∈ r.offsets, 0 ≤ m ∧ m < (r.win.len : Int)) (hnd : r.offsets.Nodup)
+    (hA : InBuf st a.win.buf a.win.off a.win.len) (hB : InBuf st b.win.buf b.win.off b.win.len)
+    (hR : InBuf st r.win.buf r.win.off r.win.len) :
+    ∃ out, engArithVV st op numberTypes a b { incr := some r } = .ok out ∧ out.ret = .reuse ∧ out.reuse = some r ∧
+      out.st.mheap = st.mheap ∧
+      (∀ (k : Nat) m i j, r.offsets[k]? = some m → a.offsets[k]? = some i → b.offsets[k]? = some j →
+        ∃ acc x y, cell st r.win.buf (r.win.off + m.toNat) = some acc ∧ cell st a.win.buf (a.win.off + i.toNat) = some x ∧
+          cell st b.win.buf (b.win.off + j.toNat) = some y ∧
+          cell out.st r.win.buf (r.win.off + m.toNat) = some (accAdd acc (.app2 op x y))) ∧
+      (∀ b' k', b' ≠ r.win.buf → cell out.st b' k' = cell st b' k') := by
+  obtain ⟨st', h, hm, hv, hfr⟩ := engArithVV_incr_iter' st op numberTypes a b r (binOK a b hsh hdt hnum)
+    (by simpa using hk) hr hu hma hmb hmr hna hnb hla hlb hoa hob hor hnd hA hB hR
+  refine ⟨_, h, rfl, rfl, hm, ?_, hfr⟩
+  intro k m i j hk' hi hj
+  have h1 := hoa i (List.mem_of_getElem? hi)
+  have h2 := hob j (List.mem_of_getElem? hj)
+  have h3 := hor m (List.mem_of_getElem? hk')
+  exact ⟨_, _, _, cell_some_cellD (hR.has.at h3.1 h3.2), cell_some_cellD (hA.has.at h1.1 h1.2),
+    cell_some_cellD (hB.has.at h2.1 h2.2), hv k m i j hk' hi hj⟩
+
 /-- **`WithIncr(r)` with two one-element operands** (finding F32, repaired; the case `incr_writes_only_incr` leaves out —
     together they cover every operand length on the raw path): every cell of `r` receives `+ (a[0] op b[0])`, `r` is
     returned, and no existing cell outside `r`'s window changes — the operands are not written. No hypothesis separates
@@ -322,6 +356,9 @@ example : ∃ out, engMMVV st "minb" ta tb { unsafe_ := true } = .ok out ∧
     cell out.st 0 0 = some (.app2 "minb" (.src 0 0) (.src 1 0)) := ⟨_, rfl, rfl⟩
 example := reuse_writes_only_reuse st "add" ta tb tr (by decide) rfl (by decide) (by decide) (by decide) (by decide)
   (by decide) (by decide) fits (by decide) (by decide) (by decide) (by decide) inA inB inR
+example := incr_iter_writes_only_incr st "add" tT tb tr (by decide) rfl (by decide) (by decide) ⟨rfl, by decide, by decide, rfl⟩
+  (by decide) rfl rfl rfl (by decide) (by decide) (by decide) (by decide) (by decide) (by decide) (by decide) (by decide)
+  ⟨_, rfl, by decide⟩ ⟨_, rfl, by decide⟩ ⟨_, rfl, by decide⟩
 example := incr_writes_only_incr st "add" ta tb tr (by decide) rfl (by decide) (by decide) (by decide) (by decide)
   (by decide) (by decide) fits (by decide) (by decide) (by decide) (by decide) (by decide) (by decide) inA inB inR
 -- one-element operands (the witness shape of F32): the increment receives the sum, the operands stay
